@@ -311,6 +311,7 @@ def dns_query(qid, name):
 
 
 _eth = b'{"jsonrpc":"2.0","method":"eth_blockNumber","params":[],"id":7}'
+_eth_batch = b'[{"jsonrpc":"2.0","method":"eth_blockNumber","params":[],"id":1},{"jsonrpc":"2.0","method":"eth_accounts","params":[],"id":2}]'
 _eos = b'{"block_num_or_id": 5}'
 _cwmp = (b'<soapenv:Envelope xmlns:soapenv="http://schemas.xmlsoap.org/soap/envelope/" xmlns:cwmp="urn:dslforum-org:cwmp-1-0">'
          b'<soapenv:Header/><soapenv:Body><cwmp:Inform><DeviceId>x</DeviceId></cwmp:Inform></soapenv:Body></soapenv:Envelope>')
@@ -391,7 +392,9 @@ C04 = {
         [rq(http_post("/v1/chain/get_block", _eos), _eos, ev=[{"http.method": "POST", "eos.method": "/v1/chain/get_block", "payload": _eos.decode()}])]],
         "keys": ["http.method", "eos.method", "payload"]},
     "ethereum": {"greet": ("none", ""), "one": True, "streams": [
-        [rq(http_post("/", _eth), _eth, ev=[{"http.method": "POST", "ethereum.method": "eth_blockNumber", "payload": _eth.decode()}])]],
+        [rq(http_post("/", _eth), _eth, ev=[{"http.method": "POST", "ethereum.method": "eth_blockNumber", "payload": _eth.decode()}])],
+        # a JSON-RPC batch: a complete, valid request whose body is an array, not an object
+        [rq(http_post("/", _eth_batch), _eth_batch, ev=[{"http.method": "POST", "payload": _eth_batch.decode()}])]],
         "keys": ["http.method", "ethereum.method", "payload"]},
     "cwmp": {"greet": ("none", ""), "one": True, "streams": [
         [rq(http_post("/", _cwmp, "text/xml"), _cwmp, ev=[{"http.method": "POST", "cwmp.method": "Inform", "http.body": _cwmp.decode()}])]],
